@@ -865,7 +865,7 @@ namespace awkward {
 
     const ContentPtr
       num(int64_t axis, int64_t depth) const override {
-      int64_t toaxis = axis_wrap_if_negative(axis);
+      int64_t toaxis = axis_wrap_if_negative(axis, depth);
       if (toaxis == depth) {
         Index64 out(1);
         out.setitem_at_nowrap(0, length());
@@ -884,7 +884,7 @@ namespace awkward {
 
     const std::pair<Index64, ContentPtr>
       offsets_and_flattened(int64_t axis, int64_t depth) const override {
-      int64_t toaxis = axis_wrap_if_negative(axis);
+      int64_t toaxis = axis_wrap_if_negative(axis, depth);
       if (toaxis == depth) {
         throw std::invalid_argument(
           std::string("axis=0 not allowed for flatten") + FILENAME(__LINE__));
@@ -991,7 +991,7 @@ namespace awkward {
 
     const ContentPtr
       rpad(int64_t target, int64_t axis, int64_t depth) const override {
-      int64_t toaxis = axis_wrap_if_negative(axis);
+      int64_t toaxis = axis_wrap_if_negative(axis, depth);
       if (toaxis != depth) {
         throw std::invalid_argument(
           std::string("axis exceeds the depth of this array")
@@ -1009,7 +1009,7 @@ namespace awkward {
       rpad_and_clip(int64_t target,
                     int64_t axis,
                     int64_t depth) const override {
-      int64_t toaxis = axis_wrap_if_negative(axis);
+      int64_t toaxis = axis_wrap_if_negative(axis, depth);
       if (toaxis != depth) {
         throw std::invalid_argument(
           std::string("axis exceeds the depth of this array")
@@ -1130,7 +1130,7 @@ namespace awkward {
 
     const ContentPtr
       localindex(int64_t axis, int64_t depth) const override {
-      int64_t toaxis = axis_wrap_if_negative(axis);
+      int64_t toaxis = axis_wrap_if_negative(axis, depth);
       if (axis == depth) {
         return localindex_axis0();
       }
@@ -1153,7 +1153,7 @@ namespace awkward {
           std::string("in combinations, 'n' must be at least 1")
           + FILENAME(__LINE__));
       }
-      int64_t toaxis = axis_wrap_if_negative(axis);
+      int64_t toaxis = axis_wrap_if_negative(axis, depth);
       if (toaxis == depth) {
         return combinations_axis0(n, replacement, recordlookup, parameters);
       }
